@@ -62,7 +62,7 @@ META = dict(
           "Non-trivial = at least two components with positive quantity (a proportion is really tested) or a "
           "documented error case."),
     bound=dict(
-        quick=("A: depth 1: k<=2 over 18 bases (9 compounds, each also with the formula unit x3.2), k=3 over 10; "
+        quick=("A: depth 1: k<=2 over 22 bases (11 compounds incl. the subscripted pure elements N2@0.8 and S8, each also with the formula unit x3.2), k=3 over 12; "
                "depth 2: k<=2 over 18 bases + R1 (11), k=3 over 3 bases + 5 of R1; all 7 quantities; string arguments k<=2; "
                "same display string: all ordered pairs (7 quantities) and triples (5 quantities) over the 7 components "
                "of alphabet L, by weight and by volume, Formula objects (one string argument among them).  "
